@@ -297,8 +297,11 @@ class Report:
         self.notes.append(txt)
 
     def check_floors(self):
+        with_findings = {f.rule for f in self.findings}
         for rid, floor in self.floors.items():
             n = self.rule_counts.get(rid, 0)
+            if rid in with_findings:
+                continue  # a rule that reports a violation is not vacuous
             if n < floor:
                 raise AnalysisError(
                     f"rule {rid}: only {n} instances analysed, fewer than the {floor} confirmed by hand "
